@@ -251,3 +251,49 @@ _OPNAMES = set(n for n, _ in OPCTX)
 
 def total(full):
     return sum(1 for _ in all_cases(full))
+
+
+# Version-sensitive spellings: source forms whose unparenthesized printing is only legal on some interpreters. They are written
+# with explicit parentheses (valid everywhere the construct exists) and run inside every installed interpreter.
+VERSION_SENSITIVE = [
+    'x[(*a,)]', 'x[(*a, b)]', 'del x[(*a,)]', 'x[(*a,)] = 1', 'x[(*a, b), c]', 'x[(*a,):]' if False else 'x[(a, *b)]',
+    'x += (*a,)', 'x += (*a, b)', 'x -= (a, *b)', 'x: int = (*a,)', 'x: int = (*a, b)',
+    'for i in (*a, b): pass', 'for i in (*a,): pass', 'async def f():\n    async for i in (*a, b): pass', 'x = [i for i in (*a, b)]',
+    'def f():\n    return (*a, b)', 'def f():\n    return (*a,)', 'def f():\n    yield (*a, b)', 'def f():\n    x = yield (*a, b)', 'def f():\n    x = y = yield (*a,)',
+    'def f():\n    x += yield (*a,)', 'x = (*a, b)', 'x = (*a,)', 'x = y = (*a, b)', 'with (a, b): pass', 'with ((a, b)) as c: pass', 'with (*a,) as b: pass',
+    'assert (*a,), (*b,)', 'lambda: (*a,)', 'x = (yield)', 'def f():\n    x = (yield a, b)', 'def f():\n    await_ = [(yield)]', 'print((yield))' if False else 'f((*a,))',
+    'x = (y := 1)', 'f(y := 1)', 'f(x=(y := 1))', 'x[(y := 1)]', 'x[(y := 1):2]', '[(y := 1) for i in a]', '{(y := 1): 2}', 'while (y := f()): pass', 'if (y := 1) and z: pass',
+    'x = (y := 1), 2', 'assert (y := 1)', 'del x[(y := 1)]', 'lambda: (y := 1)', 'f"{(y := 1)}"', 'x = [y := 1, 2]', 'x = {(y := 1)}', 'with (y := f()): pass',
+    '@(y := f)\ndef g(): pass', '@a.b[c]\ndef g(): pass', '@(lambda f: f)\ndef g(): pass', '@a if b else c\ndef g(): pass', '@(yield)\ndef g(): pass' if False else '@a @ b\ndef g(): pass',
+    'def f(a, /, b, *, c): pass', 'lambda a, /: a', 'def f(a=1, /, b=2): pass', 'def f(a, /): pass',
+    'x = a if b else c if d else e', 'x = (a if b else c) if d else e', 'x = (lambda: a) if b else c', 'x = a if (lambda: b) else c',
+    'print(*a, sep="")', 'f(**a, **b)', 'f(*a, *b, c)', 'x = {**a, "k": 1}', 'x = [*a, *b]', 'x = *a, *b', 'x = {*a, *b}',
+    "f'{a!r:>{w}}'", "f'{a}{{}}'", "f'{{{a}}}'", "f'{a:{b}{c}}'", "f'{a=}'", "f'{a = }'", "f'{a=!r:>5}'", "f'{ {1: 2}[1]}'", "f'{ {1, 2} }'", "f'{(lambda: 1)()}'", "f'{a if b else c}'",
+    "f'{x!s}' f'{y}' 'z'", "f'''{a}\n{b}'''", "f'{a[\"k\"]}'", 'f"{a[\'k\']}"', "f'{\"s\" \"t\"}'",
+    'try:\n    pass\nexcept* E:\n    pass', 'try:\n    pass\nexcept* (A, B) as e:\n    pass',
+    'match x:\n    case [a, *b]:\n        pass', 'match x:\n    case {"k": v, **r}:\n        pass', 'match x:\n    case A(b=1) | None:\n        pass', 'match (x, y):\n    case (1, 2):\n        pass',
+    'match x:\n    case -1 | 1.5 | 2j | -1+2j:\n        pass', 'match x,:\n    case _:\n        pass', 'match x:\n    case a.b:\n        pass', 'match x:\n    case (a, b) as c if c:\n        pass',
+    'match = 1\ncase = 2\ntype = 3\nprint(match, case, type)', 'match(x)', 'match[x]', 'type(x)', 'type X = int', 'type X[T] = list[T]', 'def f[T: int, *Ts, **P](a: T) -> T: pass', 'class A[T](B): pass',
+    'def f[T = int](): pass', 'class A[*Ts = (int,)]: pass',
+    'async def f():\n    return [i async for i in a]', 'async def f():\n    return [await i for i in a]', 'async def f():\n    async with a as b, c as d: pass', 'async def f():\n    await (yield)',
+    'x = 1 .real', 'x = 1..real', 'x = 1e5.real', 'x = 0x10.real' if False else 'x = 1j.real', 'x = -1 ** 2', 'x = (-1) ** 2', 'x = 2 ** -1', 'x = -(-1)', 'x = - -1', 'x = +-~1', 'x = not not a',
+    'x = a ** b ** c', 'x = (a ** b) ** c', 'x = a - (b - c)', 'x = a / (b * c)', 'x = (a, b)[0]', 'x = (a < b) < c', 'x = a < (b < c)', 'x = (not a) == b', 'x = not (a == b)',
+    'x = (await a) ** 2' if False else 'x = a @ b @ c', 'x = a or (b or c)', 'x = (a or b) and c', 'x = a if b else (c, d)', 'x = [a for a in b if (c if d else e)]', 'x = [a for a in (b if c else d)]',
+    'x = (yield a) + 1' if False else 'global_ = 1', 'x = 1 if 2 else 3', 'x = 1if 2else 3', 'x = 0x1f', 'x = 0o17', 'x = 0b11', 'x = 1_000', 'x = 1e-5', 'x = .5', 'x = 5.', 'x = 1e100', 'x = 1E5j',
+    "x = 'a' 'b'", "x = b'a' b'b'", "x = u'a'", "x = r'\\d'", "x = rb'\\d'", "x = '''a\nb'''", 'x = "\\N{BULLET}"', "x = '\\x00\\xff\\u1234\\U0001f600'", "x = b'\\x00\\xff'",
+    'from . import a', 'from .. import a as b', 'from .a import (b, c)', 'from a.b import c as d, e', 'import a.b.c', 'import a.b as c, d', 'from a import *',
+    'global a, b', 'def f():\n    def g():\n        nonlocal_ = 1\n    return g', 'del a, b[0], c.d', 'del (a, b)', 'del [a, b]', 'a = b = c = 1', 'a, b = b, a', '(a, b), c = d', '[a, b] = c', 'a, = b', '*a, = b',
+    'a: int', '(a): int', 'a.b: int = 1', 'a[0]: int', 'class A(object, metaclass=M, k=1): pass', 'class A(*b, **k): pass', 'class A: x: int = 1',
+    'while 1:\n    break\nelse:\n    pass', 'for a in b:\n    continue\nelse:\n    pass', 'try:\n    pass\nexcept (A, B) as e:\n    raise\nelse:\n    pass\nfinally:\n    pass', 'raise A from B', 'raise',
+    'if a:\n    pass\nelif b:\n    pass\nelse:\n    pass', 'if a:\n    if b:\n        pass\n    else:\n        pass', 'with a as (b, c): pass', 'with a as [b, c], d as e.f: pass',
+]
+
+
+def version_sensitive_sources():
+    out = []
+    seen = set()
+    for s in VERSION_SENSITIVE:
+        if s not in seen:
+            seen.add(s)
+            out.append(s + '\n')
+    return out
